@@ -16,6 +16,7 @@ import (
 	"net/netip"
 	"sync"
 	"syscall"
+	"testing/synctest"
 	"time"
 
 	"github.com/IrineSistiana/mosproxy/internal/testutils"
@@ -124,8 +125,9 @@ func (c *fakeGnetConn) doClose(err error) {
 }
 
 type gnetClient struct {
-	c    *fakeGnetConn
-	loop *fakeLoop
+	c       *fakeGnetConn
+	loop    *fakeLoop
+	stopped bool
 }
 
 func (v *vRouter) newGnetServer(maxConcurrent int32, idle time.Duration) *gnetServer {
@@ -150,7 +152,9 @@ func (v *vRouter) gnetClient(s *gnetServer, remote, local netip.AddrPort) *gnetC
 			c.doClose(nil)
 		}
 	}
-	return &gnetClient{c: c, loop: loop}
+	g := &gnetClient{c: c, loop: loop}
+	v.closers = append(v.closers, func() { g.Close(); synctest.Wait(); g.Stop() })
+	return g
 }
 
 // Send delivers each segment as one read event (one OnTraffic call), like gnet does.
@@ -175,12 +179,21 @@ func (g *gnetClient) Send(segments ...[]byte) {
 		}
 	}
 }
-func (g *gnetClient) Written() []byte { g.c.mu.Lock(); defer g.c.mu.Unlock(); return append([]byte(nil), g.c.out...) }
-func (g *gnetClient) Closed() bool    { g.c.mu.Lock(); defer g.c.mu.Unlock(); return g.c.closed }
+func (g *gnetClient) Written() []byte {
+	g.c.mu.Lock()
+	defer g.c.mu.Unlock()
+	return append([]byte(nil), g.c.out...)
+}
+func (g *gnetClient) Closed() bool { g.c.mu.Lock(); defer g.c.mu.Unlock(); return g.c.closed }
 func (g *gnetClient) Close() {
 	g.loop.jobs <- func() { g.c.doClose(io.EOF) }
 }
-func (g *gnetClient) Stop() { g.loop.stop() }
+func (g *gnetClient) Stop() {
+	if !g.stopped {
+		g.stopped = true
+		g.loop.stop()
+	}
+}
 
 // ---------------------------------------------------------------- TLS (DoT)
 
@@ -201,17 +214,18 @@ func vServerCert() tls.Certificate {
 }
 
 type tlsClient struct {
-	sc   *streamClient
-	tc   *tls.Conn
-	mu   sync.Mutex
-	rx   []byte
-	hsOK bool
+	sc    *streamClient
+	tc    *tls.Conn
+	mu    sync.Mutex
+	rx    []byte
+	hsOK  bool
 	hsErr error
 }
 
 func (v *vRouter) tlsClient(s *tcpServer, remote, local netip.AddrPort) *tlsClient {
 	sc := v.tcpClient(s, remote, local)
 	t := &tlsClient{sc: sc}
+	v.closers = append(v.closers, func() { t.Close() })
 	t.tc = tls.Client(sc.impl.Peer(), &tls.Config{InsecureSkipVerify: true, Time: func() time.Time { return time.Now().AddDate(30, 0, 0) }})
 	go func() {
 		if err := t.tc.Handshake(); err != nil {
@@ -238,16 +252,20 @@ func (t *tlsClient) Send(segments ...[]byte) {
 		t.tc.Write(s)
 	}
 }
-func (t *tlsClient) Received() []byte { t.mu.Lock(); defer t.mu.Unlock(); return append([]byte(nil), t.rx...) }
-func (t *tlsClient) Close()           { t.tc.Close(); t.sc.impl.Peer().Close() }
+func (t *tlsClient) Received() []byte {
+	t.mu.Lock()
+	defer t.mu.Unlock()
+	return append([]byte(nil), t.rx...)
+}
+func (t *tlsClient) Close() { t.tc.Close(); t.sc.impl.Peer().Close() }
 
 // ---------------------------------------------------------------- DoH (net/http handler)
 
 type httpResult struct {
-	done   bool
-	status int
-	body   []byte
-	ctype  string
+	done     bool
+	status   int
+	body     []byte
+	ctype    string
 	panicked any
 }
 
@@ -350,6 +368,7 @@ func (v *vRouter) quicStream(s *quicServer, remote, local netip.AddrPort) *quicC
 	conn := env.NewFakeQuicConn(vUDPAddr(local), vUDPAddr(remote))
 	st, peer := env.NewFakeStream(0, vUDPAddr(local), vUDPAddr(remote))
 	q := &quicClient{s: st, peer: peer}
+	v.closers = append(v.closers, func() { peer.Close(); st.E.Abort() })
 	go func() {
 		defer func() {
 			st.Close()
@@ -387,9 +406,11 @@ func (v *vRouter) udpClient(clientIP string) (*udpClient, error) {
 		return nil, err
 	}
 	s := &udpServer{r: v.r, logger: v.r.subLoggerForServer("server_udp", "verif"), cs: []*wmUdpConn{{c: send}}}
-	return &udpClient{srv: s, send: send, recv: recv,
+	uc := &udpClient{srv: s, send: send, recv: recv,
 		remote:   recv.LocalAddr().(*net.UDPAddr).AddrPort(),
-		listener: send.LocalAddr().(*net.UDPAddr).AddrPort()}, nil
+		listener: send.LocalAddr().(*net.UDPAddr).AddrPort()}
+	v.closers = append(v.closers, func() { uc.Close() })
+	return uc, nil
 }
 
 // Send hands one datagram to the real handleMsg, then overwrites the receive buffer like the read loop would.
